@@ -320,7 +320,9 @@ def step (s : State) (te : TEv) : R State :=
       -- a successful Start begins a new run
       if x.stopDel = some n then pure (s.setInst { x with stopDel := none, awd := false })
       else if x.startCall = some n then
-        pure (s.setInst (if r = .ok then { x with startCall := none, halted := false, awd := false, acked := [] } else { x with startCall := none }))
+        -- (an acquiring write acknowledged shortly before the restart may still be on its way to `becomeLeader`: the new run
+        --  is the one that decides about its promotion, so the note of it is kept)
+        pure (s.setInst (if r = .ok then { x with startCall := none, halted := false, awd := false } else { x with startCall := none }))
       else pure s
     | none => pure s
   | _ => pure s
